@@ -98,3 +98,16 @@ Definition enc_state (s : state) : list Z :=
 Definition hmix (h x : Z) : Z := Z.land (h * 131 + x + 7) 2305843009213693951.
 Definition fingerprint (w c : Z) (acts : list action) : Z :=
   fold_left (fun h s => fold_left hmix (enc_state s) h) (trace w c (init 0) acts) 7.
+
+(** Compact schedule encoding (correspondence only: a list literal with notations costs Coq ~2 ms per action to parse, a
+    single numeral nothing).  A schedule of [n] actions is one number in base 2^20, least significant digit first;
+    digit = kind + 4 * arg with kind 1 = Enter, 2 = Wake arg, 3 = Advance (arg - 512).  A wrong decoding would show up
+    as a disagreement with the implementation, never hide one. *)
+Definition decode_action (d : Z) : action :=
+  let k := d mod 4 in let a := d / 4 in
+  if k =? 1 then Enter else if k =? 2 then Wake (Z.to_nat a) else Advance (a - 512).
+Fixpoint decode (n : nat) (z : Z) : list action :=
+  match n with
+  | O => []
+  | S m => decode_action (Z.land z 1048575) :: decode m (Z.shiftr z 20)
+  end.
